@@ -1,19 +1,42 @@
 package vh
 
 import (
+	"io"
 	"os"
+	"strings"
 	"testing"
 
 	"go.uber.org/zap"
+	"go.uber.org/zap/zapcore"
 
 	"github.com/metal-toolbox/audito-maldito/processors/auditd"
 	"github.com/metal-toolbox/audito-maldito/processors/sshd"
 )
 
+// vhLogger is the logger handed to the code under test. Every other shard of a
+// step runs with debug logging enabled (into a discarding sink), as the daemon
+// does under -log-level debug: statements behind the level check are code too.
+var vhLogger = zap.NewNop().Sugar()
+
+func debugShard() bool {
+	if v := os.Getenv("VERIF_DEBUG_LOG"); v != "" {
+		return v == "1"
+	}
+	sh := os.Getenv("VERIF_SHARD") // "i/n"
+	if i := strings.IndexByte(sh, '/'); i > 0 {
+		last := sh[i-1]
+		return (last-'0')%2 == 1
+	}
+	return false
+}
+
 func TestMain(m *testing.M) {
-	l := zap.NewNop().Sugar()
-	auditd.SetLogger(l)
-	sshd.SetLogger(l)
+	if debugShard() {
+		core := zapcore.NewCore(zapcore.NewJSONEncoder(zap.NewProductionEncoderConfig()), zapcore.AddSync(io.Discard), zapcore.DebugLevel)
+		vhLogger = zap.New(core).Sugar()
+	}
+	auditd.SetLogger(vhLogger)
+	sshd.SetLogger(vhLogger)
 	code := m.Run()
 	flushStats()
 	os.Exit(code)
